@@ -233,7 +233,7 @@ fn is_parse_err<T>(r: &Result<T, ConnectionError>) -> bool {
 // ---------------------------------------------------------------------------------------------
 // F-contract: parse_request_line
 // ---------------------------------------------------------------------------------------------
-// @harness props=C01,C02,C03,C04,C11 tiers=quick:B=8;thorough:B=16 unwind=B+2 cap=1500 mem=8 covers=3
+// @harness props=C01,C02,C04 props_thorough=C03 tiers=quick:B=8;thorough:B=16 unwind=B+2 cap=1500 mem=4 covers=3
 // @fn HttpConnection::parse_request_line request::find HttpConnection::shift_buffer_left
 // @claim F-contract(request line): first CRLF at i => line parser called once on w[start..i), start'=i+2, state Headers, fresh pending request; no CRLF => InvalidRequest iff start==0 && end==B, else Ok(false), read_cursor=end-start and the bytes carried to offset 0; queues untouched
 // @bounds window B bytes, arbitrary contents, arbitrary 0<=start<=end<=B; request-line content parser replaced by the surrogate
@@ -303,7 +303,7 @@ fn resp_is_continue(r: &Response, v: Version) -> bool {
 // ---------------------------------------------------------------------------------------------
 // F-contract: parse_headers
 // ---------------------------------------------------------------------------------------------
-// @harness props=C01,C02,C03,C04,C11,C13 tiers=quick:B=8;thorough:B=16 unwind=B+2 cap=1500 mem=8 covers=7
+// @harness props=C01,C02,C04,C13 props_thorough=C03 tiers=quick:B=8;thorough:B=16 unwind=B+2 cap=1500 mem=4 covers=7
 // @fn HttpConnection::parse_headers request::find HttpConnection::shift_buffer_left Response::new
 // @stubs std::string::String::from_utf8_lossy
 // @claim F-contract(headers): CRLF at start => end of headers: content_length 0 -> RequestReady; n>limit -> SizeLimitExceeded(limit,n) (full width n:u32, limit:usize); else WaitingForBody with counter n, empty body, exactly one 100-continue with the request's version iff expect; CRLF at i>start => header parser called once on w[start..i), fatal error propagated, UnsupportedValue ignored, start'=i+2; no CRLF => header SizeLimitExceeded iff start==0 && end==B else carried to offset 0
@@ -482,7 +482,7 @@ fn fc_body_case(have: usize, avail: usize, todo_c: Option<u32>, start_c: Option<
     std::mem::forget(conn);
 }
 
-// @harness props=C01,C02,C03,C04,C13 tiers=quick:B=8,K=0|B=8,K=1|B=8,K=3|B=8,K=8;thorough:B=16,K=0|B=16,K=1|B=16,K=2|B=16,K=5|B=16,K=8|B=16,K=15|B=16,K=16 unwind=B+5 cap=900 mem=8 covers=2
+// @harness props=C01,C02,C04 props_thorough=C03,C13 tiers=quick:B=8,K=0|B=8,K=1|B=8,K=3|B=8,K=8;thorough:B=16,K=0|B=16,K=1|B=16,K=2|B=16,K=5|B=16,K=8|B=16,K=15|B=16,K=16 unwind=B+5 cap=900 mem=4 covers=2
 // @fn HttpConnection::parse_body
 // @claim F-contract(body), extents: takes exactly min(counter, end-start) bytes; incomplete => length accumulated, counter reduced, window cleared, read_cursor 0; complete => start'=start+counter, body length == Content-Length, state RequestReady; queues untouched
 // @bounds window B bytes; K = end-start concrete per query, start arbitrary; counter arbitrary in 1..=K+3 (larger counters take the same path); no bytes accumulated before; byte contents are checked by fc_body_bytes
@@ -492,7 +492,7 @@ fn fc_body_0() {
     fc_body_case(0, crate::verif_params::K, None, None);
 }
 
-// @harness props=C01,C02,C03,C04 tiers=quick:B=8,K=2|B=8,K=8;thorough:B=16,K=0|B=16,K=3|B=16,K=16 unwind=B+5 cap=900 mem=8 covers=2
+// @harness props=C01,C02 props_thorough=C03,C04 tiers=quick:B=8,K=2|B=8,K=8;thorough:B=16,K=0|B=16,K=3|B=16,K=16 unwind=B+5 cap=900 mem=4 covers=2
 // @fn HttpConnection::parse_body
 // @claim as fc_body_0 with 2 symbolic bytes already accumulated by earlier reads
 // @bounds as fc_body_0; 2 bytes accumulated before
@@ -502,7 +502,7 @@ fn fc_body_2() {
     fc_body_case(2, crate::verif_params::K, None, None);
 }
 
-// @harness props=C01,C02,C03 tiers=quick:B=8,M=0|B=8,M=1|B=8,M=2|B=8,M=3;thorough:B=16,M=0|B=16,M=1|B=16,M=2|B=16,M=3|B=16,M=4|B=16,M=5 unwind=B+5 cap=900 mem=8 covers=2
+// @harness props=C01,C02 props_thorough=C03 tiers=quick:B=8,M=0|B=8,M=1|B=8,M=2|B=8,M=3;thorough:B=16,M=0|B=16,M=1|B=16,M=2|B=16,M=3|B=16,M=4|B=16,M=5 unwind=B+5 cap=900 mem=4 covers=2
 // @fn HttpConnection::parse_body
 // @claim F-contract(body), contents: the accumulated / delivered body consists of exactly the window bytes [start, start+min(counter,avail)) after the bytes accumulated before, in order
 // @bounds concrete (already accumulated, avail, start, counter) tuples, one per query M: (0,3,1,2) (0,3,1,5) (2,B,0,B) (2,B-1,1,B+1) (0,1,B-1,1) (2,2,B-2,1); window contents and accumulated bytes symbolic
@@ -526,7 +526,7 @@ fn raw_fd_of(f: &File) -> RawFd {
     f.as_raw_fd()
 }
 
-// @harness props=C01,C03,C12 tiers=quick:B=8;thorough:B=16 unwind=B+2 cap=1500 mem=8 covers=4
+// @harness props=C01,C12,C03 tiers=quick:B=8;thorough:B=16 unwind=B+2 cap=1500 mem=4 covers=4
 // @fn HttpConnection::read_bytes HttpConnection::recv_with_fds
 // @claim F-read: exactly one receive, on buffer[read_cursor..]; chunk stored at [rc, rc+n), [0,rc) untouched, returns rc+n; 0 bytes => ConnectionClosed, stream error => StreamReadError, both leaving the parser state as it was; received descriptors are each wrapped once and appended in arrival order after the ones already held (also on the 0-byte read)
 // @bounds window B; read_cursor arbitrary < B; chunk arbitrary, length 0..=B (truncated to the iovec by the kernel contract); 0..=3 received descriptors with arbitrary numbers, 1 descriptor already held
@@ -595,8 +595,9 @@ use crate::verif_params::N as STEPS;
 
 /// When set, try_write serializes a response into a 6-byte stand-in (status digits, version,
 /// two markers) instead of calling Response::write_all: the real serialization into a growing
-/// Vec costs CBMC minutes per response and is the subject of C05, not of C06.  c06_serialize
-/// checks with the flag off that try_write offers the stream exactly write_all's output.
+/// Vec costs CBMC minutes per response and is the subject of C05, not of C06.  With the flag
+/// off the hook *is* `Response::write_all(out)` on the same arguments (by inspection of the
+/// overlay substitution); a harness comparing both through the solver ran out of memory.
 pub(crate) static mut MODEL_SER: bool = false;
 
 pub(crate) fn serialize_hook(r: &Response, out: &mut Vec<u8>) -> Result<(), std::io::Error> {
@@ -646,10 +647,10 @@ fn ser_byte(id: usize, v: Version, j: usize) -> u8 {
     }
 }
 
-// @harness props=C06,C03 tiers=quick:N=5,M=340|N=5,M=336|N=5,M=344|N=5,M=308|N=5,M=272|N=5,M=337|N=5,M=284|N=5,M=356;thorough:N=5,M=340|N=5,M=336|N=5,M=344|N=5,M=308|N=5,M=272|N=5,M=337|N=5,M=284|N=5,M=338|N=5,M=0|N=5,M=341|N=5,M=1020|N=5,M=320|N=5,M=324|N=5,M=276|N=5,M=292|N=5,M=852|N=5,M=596|N=5,M=352|N=5,M=368|N=5,M=304|N=6,M=1364|N=6,M=1296|N=6,M=1108|N=6,M=3344 unwind=N+4 cap=1500 mem=10 covers=1
+// @harness props=C06 props_thorough=C03 tiers=quick:N=5,M=1554|N=5,M=1596|N=5,M=1548|N=5,M=1668|N=5,M=1488|N=5,M=1332|N=5,M=1549|N=5,M=1584;thorough:N=5,M=1554|N=5,M=1596|N=5,M=1548|N=5,M=1668|N=5,M=1488|N=5,M=1332|N=5,M=1549|N=5,M=1362|N=5,M=1572|N=5,M=1584|N=5,M=1416|N=5,M=1764|N=5,M=1524|N=5,M=1512|N=5,M=222|N=5,M=3108|N=5,M=1530|N=5,M=1476|N=5,M=1344|N=5,M=1680|N=5,M=2232|N=5,M=1553|N=6,M=9108|N=6,M=10560 unwind=N+4 cap=1500 mem=4 covers=1
 // @fn HttpConnection::try_write HttpConnection::enqueue_response HttpConnection::clear_write_buffer HttpConnection::pending_write
-// @claim history invariant, checked at every step of a sequence of N operations from a fresh connection (operation i is digit i of M in base 4: 0 enqueue_response, 1 try_write answered Ok(k) for arbitrary k including 0, 2 try_write interrupted, 3 try_write failing with EAGAIN or EPIPE): every write call passes the stream exactly the not-yet-accepted suffix of the oldest unsent response (length and an arbitrary byte), exactly one stream write per try_write, none when nothing is pending (InvalidWrite); Ok(k<len) keeps the rest, Ok(len) moves to the next response, EINTR changes nothing, Ok(0)/EAGAIN/EPIPE discard everything and report ConnectionClosed; pending_write() <=> something unsent
-// @bounds N operations with the operation kinds fixed per query (a symbolic kind makes the io::Error drop glue symbolic, which CBMC unwinds recursively) and k, the watched byte and the HTTP version symbolic; responses are identified by distinct status codes and serialized by the 6-byte stand-in (see c06_serialize)
+// @claim history invariant, checked at every step of a sequence of N operations from a fresh connection (operation i is digit i of M in base 6: 0 enqueue_response, 1 try_write accepted completely, 2 try_write accepted partly (any 0 < k < remaining), 3 try_write answered Ok(0), 4 interrupted, 5 failing with EAGAIN or EPIPE): every write call passes the stream exactly the not-yet-accepted suffix of the oldest unsent response (length and an arbitrary byte), exactly one stream write per try_write, none when nothing is pending (InvalidWrite); Ok(k<len) keeps the rest, Ok(len) moves to the next response, EINTR changes nothing, Ok(0)/EAGAIN/EPIPE discard everything and report ConnectionClosed; pending_write() <=> something unsent
+// @bounds N operations with the operation kinds fixed per query (a symbolic kind makes the io::Error drop glue symbolic, which CBMC unwinds recursively) and k, the watched byte and the HTTP version symbolic; responses are identified by distinct status codes and serialized by a 6-byte stand-in instead of Response::write_all (the stand-in is selected by a flag in the dispatch hook; with the flag off the hook calls write_all on the same arguments)
 #[kani::proof]
 fn c06_history() {
     unsafe { MODEL_SER = true };
@@ -667,21 +668,26 @@ fn c06_history() {
     let mut step = 0;
     let mut plan = crate::verif_params::M;
     while step < STEPS {
-        let op = plan % 4;
-        plan /= 4;
+        let op = plan % 6;
+        plan /= 6;
         if op == 0 {
             conn.enqueue_response(mk_resp(next_id, v));
             q[qt] = next_id;
             qt += 1;
             next_id += 1;
         } else {
+            let rest_now = SER_LEN - off;
             let ans: isize = match op {
-                1 => {
+                // "everything accepted": a concrete large count, so that the drain branch of try_write
+                // is not encoded with a symbolic range on this step
+                1 => 1000,
+                2 => {
                     let k: isize = kani::any();
-                    kani::assume(k >= 0 && k <= 8);
+                    kani::assume(k >= 1 && k < rest_now as isize);
                     k
                 }
-                2 => -1,
+                3 => 0,
+                4 => -1,
                 _ => {
                     if kani::any() {
                         -2
@@ -726,34 +732,6 @@ fn c06_history() {
         step += 1;
     }
     kani::cover!(true, "end of the operation sequence reachable");
-    std::mem::forget(conn);
-}
-
-// @harness props=C06,C05 tiers=quick;thorough unwind=8 cap=1500 mem=10 covers=1
-// @fn HttpConnection::try_write Response::write_all
-// @claim with the real serialization: the bytes try_write offers the stream for a queued response are exactly Response::write_all's output for that response (length and an arbitrary byte) - the link between the stand-in used by c06_history and C05
-// @bounds one response (status 200, symbolic version, no body), one full write
-#[kani::proof]
-fn c06_serialize() {
-    unsafe { MODEL_SER = false };
-    let v = any_version();
-    let mut conn = HttpConnection::new(Mock::new());
-    let watch: usize = kani::any();
-    kani::assume(watch < 160);
-    conn.stream.watchw = watch;
-    conn.stream.write_answer = 1000;
-    conn.enqueue_response(mk_resp(0, v));
-    let r = conn.try_write();
-    assert!(r.is_ok() && !conn.pending_write());
-    let mut exp: Vec<u8> = Vec::new();
-    let _ = mk_resp(0, v).write_all(&mut exp);
-    assert!(conn.stream.last_write_len == exp.len(), "[C06] try_write does not offer the serialized response (length)");
-    if watch < exp.len() {
-        assert!(conn.stream.last_write_watch == exp[watch], "[C06] try_write does not offer the serialized response (content)");
-    }
-    kani::cover!(watch == 9 && conn.stream.last_write_watch == b'2');
-    std::mem::forget(r);
-    std::mem::forget(exp);
     std::mem::forget(conn);
 }
 
@@ -873,6 +851,16 @@ pub(crate) fn last_queued_status<T>(c: &HttpConnection<T>) -> Option<StatusCode>
 // F-single: whole try_read (read + dispatch loop + RequestReady arm + error reset) on reads whose
 // *structure* is fixed per query M and whose data is symbolic.
 // ---------------------------------------------------------------------------------------------
+/// descriptors "closed" by the code under test (see the overlay): count and last number
+pub(crate) static mut CLOSED_FILES: usize = 0;
+
+pub(crate) fn close_files_hook(files: &mut Vec<File>) {
+    while let Some(f) = files.pop() {
+        unsafe { CLOSED_FILES += 1 };
+        std::mem::forget(f);
+    }
+}
+
 fn is_fresh<T>(c: &HttpConnection<T>) -> bool {
     state_code(c) == 0
         && c.pending_request.is_none()
@@ -907,28 +895,35 @@ fn feed_slice(conn: &HttpConnection<Mock>, bytes: &[u8], fds: &[RawFd]) {
     conn.stream.nfds.set(fds.len());
 }
 
-// @harness props=C01,C03,C11,C12 tiers=quick:B=8,M=0|B=8,M=1|B=8,M=2|B=8,M=3|B=8,M=4|B=8,M=5|B=8,M=6|B=8,M=7;thorough:B=16,M=0|B=16,M=1|B=16,M=2|B=16,M=3|B=16,M=4|B=16,M=5|B=16,M=6|B=16,M=7 unwind=B+4 cap=1500 mem=10 covers=1
+// @harness props=C01,C11,C12,C03 tiers=quick:B=8,M=0|B=8,M=1|B=8,M=2|B=8,M=3|B=8,M=6|B=8,M=7;thorough:B=8,M=0|B=8,M=1|B=8,M=2|B=8,M=3|B=8,M=4|B=8,M=5|B=8,M=6|B=8,M=7|B=16,M=0|B=16,M=1|B=16,M=2|B=16,M=6|B=16,M=7 unwind=B+4 cap=2400 mem=4 covers=1
 // @fn HttpConnection::try_read HttpConnection::read_and_parse HttpConnection::reset_parser HttpConnection::read_bytes HttpConnection::recv_with_fds HttpConnection::parse_request_line HttpConnection::parse_headers HttpConnection::parse_body HttpConnection::shift_buffer_left
 // @stubs std::string::String::from_utf8_lossy
 // @claim whole try_read on structured reads: (C12) a read that completes a request hands it every descriptor held or received so far, in arrival order, and keeps none; a second request completed by the same read gets none; a read that completes nothing keeps them; (C01) after a completed request the parser continues at the next byte in the same call, a trailing partial line is carried; (C11) whenever try_read returns a ParseError the parser is exactly in the state of a new connection (state, pending request, carried bytes, partial body, counter, held descriptors), requests completed earlier in the same read stay queued; exactly one receive per call
-// @bounds read structure fixed per query M (0: blank line completing a body-less request + 1 fd; 1: same followed by a complete second request; 2: last 2 body bytes + 1 fd; 3: blank line of a request that declares a body: nothing completes, fds kept; 4: rejected request line after a carried prefix; 5: rejected header line with fds held; 6: complete request followed by a rejected line; 7: blank line + partial next line); line/body data bytes, descriptor numbers, header values and the carried prefix symbolic; window B; content parsers surrogated
+// @bounds read structure fixed per query M (0: blank line completing a body-less request + 1 fd; 1: same followed by a complete second request; 2: last 2 body bytes + 1 fd; 3: blank line of a request that declares a body: nothing completes, fds kept; 4: rejected request line after a carried prefix; 5: rejected header line with fds held; 6: complete request followed by a rejected line; 7: blank line + partial next line); first byte of each line concrete (it selects the surrogate's outcome), other line/body data bytes, descriptor numbers, header values and the carried prefix symbolic; window B; content parsers surrogated
 #[kani::proof]
 #[kani::stub(std::string::String::from_utf8_lossy, hk::lossy_stub)]
 fn tr_single() {
     set_surrogates(true);
+    unsafe { CLOSED_FILES = 0 };
     const CASE: usize = crate::verif_params::M;
     let held = [any_fd(), any_fd()];
     let newfd = any_fd();
     let d: [u8; 4] = kani::any();
     // data bytes that must not look like structure
     kani::assume(d[0] != b'\r' && d[1] != b'\r' && d[2] != b'\r' && d[3] != b'\r');
-    let ok0 = d[0] & 0x7f; // accepted by the request-line surrogate
+    // bytes the surrogates branch on are concrete (a symbolic outcome makes the parser state
+    // symbolic and the dispatch loop then explores every state in every iteration); the
+    // remaining line / body bytes are symbolic
+    let ok0 = 0x05u8; // accepted by the request-line surrogate: PUT, HTTP/1.0
     let mut conn = match CASE {
         0 | 1 | 3 | 5 | 7 => mk_conn(Shape::HD, 0),
         2 => mk_conn(Shape::BD, 1),
         _ => mk_conn(Shape::RL, 0),
     };
     conn.read_cursor = 0;
+    // window: concrete except for the bytes the case sets (an arbitrary window makes the bytes
+    // CBMC reads back after the receive symbolic, and with them the parser's control flow)
+    conn.buffer = [0; B];
     conn.payload_max_size = 1000;
     conn.files.push(unsafe { File::from_raw_fd(held[0]) });
     conn.files.push(unsafe { File::from_raw_fd(held[1]) });
@@ -958,18 +953,18 @@ fn tr_single() {
         4 => {
             // carried prefix of 2 bytes, the rest of the line arrives and the line is rejected
             conn.read_cursor = 2;
-            conn.buffer[0] = d[0] | 0x80;
+            conn.buffer[0] = 0x80;
             conn.buffer[1] = d[1];
             feed_slice(&conn, &[d[2], b'\r', b'\n'], &[newfd]);
             expect_err = true;
         }
         5 => {
             // header line whose surrogate outcome is a fatal error (first byte & 7 == 4)
-            feed_slice(&conn, &[(d[0] & 0xf8) | 4, d[1], b'\r', b'\n'], &[newfd]);
+            feed_slice(&conn, &[0x04, d[1], b'\r', b'\n'], &[newfd]);
             expect_err = true;
         }
         6 => {
-            feed_slice(&conn, &[ok0, b'\r', b'\n', b'\r', b'\n', d[1] | 0x80, b'\r', b'\n'], &[]);
+            feed_slice(&conn, &[ok0, b'\r', b'\n', b'\r', b'\n', 0x80, b'\r', b'\n'], &[]);
             expect_err = true;
             expect_reqs = 1;
         }
@@ -985,6 +980,7 @@ fn tr_single() {
     if expect_err {
         assert!(matches!(r, Err(ConnectionError::ParseError(_))), "[C02] rejected line not reported");
         assert!(is_fresh(&conn), "[C11] parser state after a parse error differs from a new connection");
+        assert!(CASE == 6 || unsafe { CLOSED_FILES } == 3, "[C11,C12] descriptors pending at a parse error must be closed, not kept");
     } else {
         assert!(r.is_ok(), "[C01,C02] well-formed read rejected");
     }
@@ -1015,5 +1011,29 @@ fn tr_single() {
     }
     kani::cover!(true, "end reached");
     std::mem::forget(r);
+    std::mem::forget(conn);
+}
+
+// @harness props=C11,C12 props_thorough=C03 tiers=quick:B=8,M=0|B=8,M=1|B=8,M=2;thorough:B=16,M=0|B=16,M=1|B=16,M=2 unwind=B+4 cap=900 mem=4 covers=1
+// @fn HttpConnection::reset_parser
+// @claim the reset that try_read performs after a parse error leaves exactly the state of a new connection from every parser state: state WaitingForRequestLine, no pending request, read cursor 0, no partial body, counter 0, no descriptor held (each held descriptor closed once); queued requests and responses untouched
+// @bounds parser shape per query M (0 request line with an arbitrary carried prefix, 1 headers with an arbitrary pending request, 2 body with 2 accumulated bytes and an arbitrary counter); 2 descriptors held; window B
+#[kani::proof]
+fn c11_reset() {
+    set_surrogates(true);
+    unsafe { CLOSED_FILES = 0 };
+    let mut conn = match crate::verif_params::M {
+        0 => mk_conn(Shape::RL, 0),
+        1 => mk_conn(Shape::HD, 0),
+        _ => mk_conn(Shape::BD, 2),
+    };
+    conn.files.push(unsafe { File::from_raw_fd(any_fd()) });
+    conn.files.push(unsafe { File::from_raw_fd(any_fd()) });
+    conn.parsed_requests.push_back(any_pending(0, false));
+    conn.reset_parser();
+    assert!(is_fresh(&conn), "[C11] parser state after the reset differs from a new connection");
+    assert!(unsafe { CLOSED_FILES } == 2, "[C11,C12] descriptors pending at a parse error must be closed, not kept");
+    assert!(conn.parsed_requests.len() == 1 && conn.response_queue.is_empty(), "[C11] reset touched the queues");
+    kani::cover!(true, "end reached");
     std::mem::forget(conn);
 }
